@@ -473,7 +473,7 @@ func TestC01(t *testing.T) {
 	// decoder refuses at its first length check)
 	if harness.Cfg.Shard == 0 {
 		n := c01SaturatedCounts(t)
-		harness.Exhaustive(subC01Name+"/saturated-counts", fmt.Sprintf("%d frames: CCFB num_reports in {0x3FFF, 0x4000, 0x7FFF, 0x8000, 0xFFFE, 0xFFFF} x {field, field+1, field+2} metric blocks present x 4 begin_seq x 3 fills; XR blocks of every variable-length kind with block length 16382..16385, 32767, 32768, 49152, 65533 and their content, alone and between neighbours - by rtcp.Unmarshal and by the type's decoder", n))
+		harness.Exhaustive(subC01Name+"/saturated-counts", fmt.Sprintf("%d frames: CCFB num_reports in {0x3FFF, 0x4000, 0x7FFF, 0x8000, 0xFFFE, 0xFFFF} x {field, field+1, field+2} metric blocks present x 4 begin_seq x 3 fills; TWCC status count in the same set x 10 chunk words x {1, 8, 36, 200, 2000} identical chunks x {without, with} the announced deltas; XR blocks of every variable-length kind with block length 16382..16385, 32767, 32768, 49152, 65533 and their content, alone and between neighbours - by rtcp.Unmarshal and by the type's decoder", n))
 	}
 
 	// (1b) decoders called on a receiver that was used before
@@ -539,6 +539,33 @@ func ccfbFrame(begin, field uint16, nMetrics int, fill uint16) []byte {
 	return b
 }
 
+// chunkDeltaOctets: the receive-delta octets one TWCC status chunk announces.
+func chunkDeltaOctets(w uint16) int {
+	per := func(sym uint16) int {
+		switch sym {
+		case 1:
+			return 1
+		case 2:
+			return 2
+		}
+		return 0
+	}
+	if w&0x8000 == 0 {
+		return int(w&0x1FFF) * per(w>>13&3)
+	}
+	n := 0
+	if w&0x4000 == 0 {
+		for i := 0; i < 14; i++ {
+			n += per(w >> i & 1)
+		}
+		return n
+	}
+	for i := 0; i < 7; i++ {
+		n += per(w >> (2 * i) & 3)
+	}
+	return n
+}
+
 func c01SaturatedCounts(t *testing.T) int64 {
 	var n int64
 	un, ccfb, xr := entryPoints[0], entryPoints[epIndex["CCFeedbackReport"]], entryPoints[epIndex["ExtendedReport"]]
@@ -549,6 +576,44 @@ func c01SaturatedCounts(t *testing.T) int64 {
 					b := ccfbFrame(begin, field, int(field)+extra, fill)
 					c01Eval(t, un, "saturated-count:ccfb", b)
 					c01Eval(t, ccfb, "saturated-count:ccfb", b)
+					n += 2
+				}
+			}
+		}
+	}
+	// TWCC: a status count at or near its extremes, followed by many chunks of ONE kind (so that
+	// nothing but the count ends the chunk loop early), with and without the receive deltas those
+	// chunks announce: whatever a decoder reserves per chunk from the count is multiplied here
+	tw := entryPoints[epIndex["TransportLayerCC"]]
+	for _, count := range []uint16{0x3FFF, 0x4000, 0x7FFF, 0x8000, 0xFFFE, 0xFFFF} {
+		for _, word := range []uint16{0xBFFF, 0x8000, 0xD555, 0xEAAA, 0xC000, 0x2001, 0x3FFF, 0x5FFF, 0x0001, 0x2000} {
+			for _, k := range []int{1, 8, 36, 200, 2000} {
+				for _, withDeltas := range []bool{false, true} {
+					nd := 0
+					if withDeltas {
+						nd = chunkDeltaOctets(word) * k
+						if nd > 140000 {
+							nd = 140000
+						}
+					}
+					sz := 20 + 2*k + nd
+					sz += (4 - sz%4) % 4
+					b := make([]byte, sz)
+					b[0], b[1] = 0x80|15, 205
+					binary.BigEndian.PutUint16(b[2:], uint16(sz/4-1))
+					binary.BigEndian.PutUint32(b[4:], 1)
+					binary.BigEndian.PutUint32(b[8:], 2)
+					binary.BigEndian.PutUint16(b[12:], 100)
+					binary.BigEndian.PutUint16(b[14:], count)
+					b[16], b[17], b[18], b[19] = 0, 0, 9, 1
+					for i := 0; i < k; i++ {
+						binary.BigEndian.PutUint16(b[20+2*i:], word)
+					}
+					for i := 20 + 2*k; i < 20+2*k+nd; i++ {
+						b[i] = byte(i)&0x3f + 1
+					}
+					c01Eval(t, un, "saturated-count:twcc", b)
+					c01Eval(t, tw, "saturated-count:twcc", b)
 					n += 2
 				}
 			}
